@@ -2,6 +2,7 @@ package symex
 
 import (
 	"fmt"
+	"strings"
 	"runtime/debug"
 	"sync"
 
@@ -240,6 +241,10 @@ func (m *Machine) deadlock(th *Thread) {
 		m.end(PathInconclusive, msg)
 	}
 	m.reportViolation("deadlock", msg, th.where(), m.T.True, mod)
+	if v := m.violation; v != nil && len(v.Known) == 0 && !m.H.DeadlockUnlisted {
+		// a deadlock inside a region the harness marked keeps that classification; otherwise it is
+		// unlisted
+	}
 	m.end(PathViolation, msg)
 }
 
@@ -365,7 +370,7 @@ func (m *Machine) access(th *Thread, obj interface{}, write bool) {
 func (th *Thread) whereRace() string {
 	// innermost frame inside the repository under test
 	for f := th.fr; f != nil; f = f.caller {
-		if f.instr != nil && f.fn.Pkg != nil && th.m.P.isRepoPkg(f.fn.Pkg) {
+		if f.instr != nil && f.fn.Pkg != nil && th.m.P.isRepoPkg(f.fn.Pkg) && !strings.HasPrefix(f.fn.Name(), "verifModel") {
 			return fmt.Sprintf("%s@%s", f.fn.Name(), th.m.posString(f.instr.Pos()))
 		}
 	}
@@ -378,7 +383,14 @@ func (m *Machine) accessPtr(th *Thread, p Ptr, write bool) {
 	}
 	switch c := p.c.(type) {
 	case *ArrayV:
-		m.accessArr(th, c, write)
+		if c.ro {
+			return
+		}
+		if p.sym != nil {
+			m.access(th, c, write) // symbolic element: the whole array
+			return
+		}
+		m.access(th, slotKey{p.c, p.i}, write)
 	default:
 		m.access(th, slotKey{p.c, p.i}, write)
 	}
@@ -422,9 +434,29 @@ func (m *Machine) race(th *Thread, otherSite string, write, otherWrite bool) {
 		return
 	}
 	m.reportViolation("race", msg, key, m.T.True, mod)
+	// races are identified by the pair of racing functions (the key known findings are listed by)
+	if v := m.violation; v != nil {
+		v.Unlisted = false
+		v.Known = []string{"KF-race:" + raceFuncKey(th.whereRace(), otherSite)}
+	}
 	if !m.H.ContinueAfterRace {
 		m.end(PathViolation, msg)
 	}
+}
+
+// raceFuncKey drops positions: "f@file:line | g@file:line" -> "f|g" (sorted).
+func raceFuncKey(a, b string) string {
+	fa, fb := a, b
+	if i := strings.Index(fa, "@"); i >= 0 {
+		fa = fa[:i]
+	}
+	if i := strings.Index(fb, "@"); i >= 0 {
+		fb = fb[:i]
+	}
+	if fa > fb {
+		fa, fb = fb, fa
+	}
+	return fa + "|" + fb
 }
 
 func raceKey(a, b string) string {
